@@ -277,7 +277,9 @@ def explore(ctx):
                         v, y, x = p
                         return [v, y, x] if vaxis == 0 else ([y, v, x] if vaxis == 1 else [y, x, v])
                     pts_v = [(mv(p), w) for p, w in pts]
-                    st = PPVStatistic(stat_of(pts_v, 3), dict(md, vaxis=vaxis))
+                    # the axis number as users hold it: a Python int, or a numpy integer (read from a header, np.argmax ...)
+                    vax_given = [int, np.int64, np.int32, np.intp, np.uint8][(it + vaxis) % 5](vaxis)
+                    st = PPVStatistic(stat_of(pts_v, 3), dict(md, vaxis=vax_given))
                     obs, units = values(st, ['major_sigma', 'minor_sigma', 'radius', 'area_ellipse', 'area_exact', 'position_angle',
                                              'x_cen', 'y_cen', 'v_cen', 'v_rms'])
                     a, b, c = float(m2[1][1]), float(m2[1][2]), float(m2[2][2])
